@@ -105,6 +105,9 @@ CHECKS = {
     'C37': ('invariant-based PBT over subscription histories with a recording fake bus',
             'Exploration over histories of streams / clones / drops / proxies / signal streams; AddMatch never doubled, RemoveMatch never for unknown, registered set == live distinct signal rules, empty at the end.',
             'Trusted: fake bus recording; expected rule values are built with the MatchRule parser only to compare rules as values rather than as strings.', '7/C37'),
+    'C35': ('configuration search: generated feature subsets (exhaustive / pairwise-covering / seeded random) and generated downstream crates, compiler exit status as oracle, greedy shrinking to a minimal failing subset',
+            'Exploration over configurations: all subsets of the small crates, pairwise-covering and random subsets of zvariant (11 features) and zbus (runtime x 12 optional features), and downstream crates mixing feature selections; cargo check must succeed.',
+            'Trusted: cargo check (type checking without codegen) as "builds"; platform-only features are not built.', '7/C35'),
 }
 
 NOT_YET = {}
